@@ -135,3 +135,94 @@ Example isolation_example :
   set_after fixed [ORead 0 R_SCC doc_a; ORead 0 R_SCC doc_b] 1 = doc_b /\
   set_after fixed [ORead 0 R_SCC doc_a; ORead 0 R_SCC doc_b] 0 = doc_a.
 Proof. vm_compute. repeat split; try reflexivity; discriminate. Qed.
+
+(* ---- non-empty worlds for the history theorems ------------------------------------------------------------------------ *)
+Definition belowb (n : nat) (v : val) : bool := match v with VLoc l => Nat.ltb l n | _ => true end.
+Definition wfb (st : store) : bool :=
+  forallb (fun o => forallb (fun kv => belowb (List.length st) (fst kv) && belowb (List.length st) (snd kv)) (o_items o)) st.
+Definition wf_worldb (w : world) : bool := wfb (w_st w) && forallb (belowb (List.length (w_st w))) (w_sets w).
+
+Lemma belowb_sound : forall n v, belowb n v = true -> below n v.
+Proof. intros n [] H; simpl in *; auto. apply Nat.ltb_lt. exact H. Qed.
+
+Lemma wfb_sound : forall st, wfb st = true -> wf st.
+Proof.
+  intros st H l o Hg. unfold wfb in H. rewrite forallb_forall in H.
+  specialize (H o (nth_error_In _ _ Hg)). rewrite forallb_forall in H.
+  unfold items_below. apply Forall_forall. intros kv Hin. specialize (H kv Hin).
+  apply andb_true_iff in H. destruct H. split; apply belowb_sound; assumption.
+Qed.
+
+Lemma wf_worldb_sound : forall w, wf_worldb w = true -> wf_world w.
+Proof.
+  intros w H. apply andb_true_iff in H. destruct H as [A B]. split; [apply wfb_sound; exact A|].
+  apply Forall_forall. intros v Hv. rewrite forallb_forall in B. apply belowb_sound. auto.
+Qed.
+
+(* two sets that SHARE objects (the two default-argument dicts, before the base.py repair) plus a third one *)
+Definition shared_world : world :=
+  run_world (mkCfg false true true) world0 [ORead 0 R_SRT doc_a; ORead 1 R_SRT doc_b; OBuild positioned].
+
+Example shared_world_wf : wf_world shared_world /\ List.length (w_sets shared_world) = 3%nat /\
+  shares FUEL (w_st shared_world) (nth 0 (w_sets shared_world) VNone) (nth 1 (w_sets shared_world) VNone) = true.
+Proof. split; [apply wf_worldb_sound; vm_compute; reflexivity|]. vm_compute. split; reflexivity. Qed.
+
+Definition some_writes : list op :=
+  [OWrite 0 W_DFXP dflt_opts 2; OWrite 1 W_SAMI dflt_opts 0; OWrite 0 W_DFXP dflt_opts 1; OWrite 2 W_LEGACY dflt_opts 2;
+   OWrite 3 W_SINGLE (mkWopts true true false TNone (Some 18)) 2].
+
+(* the hypotheses of the history theorems hold on it, and the conclusion is not `[] = []` *)
+Example history_theorem_instance :
+  forallb is_write some_writes = true /\
+  map (snap FUEL (w_st (run_world fixed shared_world some_writes))) (w_sets (run_world fixed shared_world some_writes))
+  = [doc_a; doc_b; positioned] /\
+  (List.length (w_st shared_world) < List.length (w_st (run_world fixed shared_world some_writes)))%nat.
+Proof. split; [reflexivity|]. split; [vm_compute; reflexivity|vm_compute; lia]. Qed.
+
+(* the region invariant and the edit footprint on a concrete world: set 0 owns the interval its read allocated *)
+Definition two_reads : world := run_world fixed world0 [ORead 0 R_DFXP doc_a; ORead 1 R_SCC doc_b].
+
+Example edit_footprint_instance :
+  let st := w_st two_reads in
+  let s0 := nth 0 (w_sets two_reads) VNone in
+  let s1 := nth 1 (w_sets two_reads) VNone in
+  let st' := do_edit fixed st s0 (EAppendNode 0 0 (t_text "more")) in
+  snap FUEL st' s1 = snap FUEL st s1 /\ snap FUEL st' s0 <> snap FUEL st s0 /\ shares FUEL st' s0 s1 = false.
+Proof. vm_compute. split; [reflexivity|split; [discriminate|reflexivity]]. Qed.
+
+(* ---- the hypotheses of the model-meets-oracle theorems are satisfiable on histories that write ------------------------- *)
+From PV Require Import spec.SpecIso proofs.OracleFacts.
+
+Definition small_history : list op :=
+  [OBuild positioned; OWrite 0 W_DFXP dflt_opts 0; OBuild unbalanced; OWrite 0 W_DFXP dflt_opts 1;
+   OWrite 0 W_DFXP dflt_opts 0; OWrite 1 W_DFXP dflt_opts 0].
+
+Example small_history_no_fuel_exhaustion : no_fuel_exhaustion fixed world0 small_history.
+Proof.
+  unfold small_history. cbn [no_fuel_exhaustion].
+  repeat split;
+    try (intros wi;
+         match goal with |- wr_result (write ?c ?k ?wo wi ?st ?s) <> _ =>
+           destruct (write_instance_independent c k wo wi winst0 st s eq_refl) as (_ & E & _); rewrite E end;
+         vm_compute; discriminate).
+Qed.
+
+(* and the oracle really runs over write records with equal keys and equal snapshots there *)
+Example small_history_observations :
+  map (fun o => (io_kind o, io_set o)) (model_obs fixed world0 small_history)
+  = [(0, 0); (2, 0); (0, 1); (2, 1); (2, 0); (2, 0)]%Z /\
+  check_hist tree tree_eqb TCut true true 0 [] [] (model_obs fixed world0 small_history) = [].
+Proof. vm_compute. split; reflexivity. Qed.
+
+(* the oracle is not vacuous on model observations: before the open_span repair it reports clause 2 *)
+Example oracle_reports_open_span_leak :
+  check_hist tree tree_eqb TCut true false 0 [] [] (model_obs (mkCfg true true false) world0 (hist15 W_DFXP)) = [(4, 2); (5, 2)]%Z.
+Proof. vm_compute. reflexivity. Qed.
+
+(* ... and before the default-dict repair it reports clause 5 (edit of set 0 changes set 1) and clause 4 *)
+Example oracle_reports_shared_default :
+  check_hist tree tree_eqb TCut false true 0 [] []
+    (model_obs (mkCfg false true true) world0
+       [ORead 0 R_SRT doc_a; ORead 1 R_SRT doc_b; OEdit 0 (EAddStyle (TStr (lit "s:x")) red); ORead 2 R_SRT doc_b])
+  = [(2, 5); (3, 4)]%Z.
+Proof. vm_compute. reflexivity. Qed.
